@@ -80,6 +80,17 @@ Fixpoint first_bad2 {A B} (f : A -> B -> bool) (a : list A) (b : list B) (i : Z)
   | _, _ => -1
   end.
 
+(* S5 ("pushes the same change through the API"): [mis] lists the positions, in the log of one
+   operation, of the API calls whose pushed server list differs from the `server` lines of that
+   upstream in the file on disk.  Such a successful call must be followed by a successful Reload
+   in the same operation (then NGINX has read the file anyway). *)
+Definition reload_ok_ev (x : ev) : bool := match x with EReload _ true => true | _ => false end.
+Definition push_same_ok (l : list ev) (mis : list nat) : bool :=
+  forallb (fun i => match nth_error l i with
+                    | Some (EApi _ _ true) => existsb reload_ok_ev (skipn (S i) l)
+                    | _ => true
+                    end) mis.
+
 (* coverage of the model run: bit mask of the branches reached *)
 Definition bit (b : bool) (n : Z) : Z := if b then n else 0.
 
@@ -96,16 +107,18 @@ Definition b2z (b : bool) : Z := if b then 1 else 0.
 
 (* row: [id; model agrees; spec holds; nontrivial; coverage; first disagreeing op;
          first op violating S1 (held); S2 (applied); S4 (failure propagates)] *)
-Definition cfg_case (id : Z) (pl : bool) (fxs : fixes) (ops : list op) (rfail afail : list nat) (obs : list oobs) : list Z :=
+Definition cfg_case (id : Z) (pl : bool) (fxs : fixes) (ops : list op) (rfail afail : list nat) (obs : list oobs)
+           (mis : list (list nat)) : list Z :=
   let e := {| plus := pl; ro := fails_at rfail; ao := fails_at afail; fx := fxs |} in
   let ag := agree_from e init ops obs 0 in
   let s1 := held_from true obs 0 in
   let s2 := first_bad2 (applied_ok pl) ops obs 0 in
   let s4 := first_bad failprop_ok obs 0 in
+  let s5 := first_bad2 (fun (x : oobs) m => push_same_ok (fst (fst x)) m) obs mis 0 in
   let '(_, xs) := run e init ops in
   let t := trace xs in
-  [id; b2z (ag =? -1); b2z ((s1 =? -1) && (s2 =? -1) && (s4 =? -1));
-   b2z (existsb (fun x => is_reload x || is_change x || is_api x) t); cover t ops; ag; s1; s2; s4].
+  [id; b2z (ag =? -1); b2z ((s1 =? -1) && (s2 =? -1) && (s4 =? -1) && (s5 =? -1));
+   b2z (existsb (fun x => is_reload x || is_change x || is_api x) t); cover t ops; ag; s1; s2; s4; s5].
 
 (* ================= controller family ================= *)
 
@@ -211,10 +224,18 @@ Definition scover (t : list ev) (xs : list sout) (c : ctl) : Z :=
   bit (uab c) 64.
 
 (* row: [id; model agrees; spec holds; nontrivial; coverage; first disagreeing sync; verdict per sync ...] *)
-Definition ctl_case (id : Z) (pl : bool) (fxs : fixes) (ts : list task) (rfail afail : list nat) (obs : list sobs) : list Z :=
+Fixpoint with_push (vs : list Z) (obs : list sobs) (mis : list (list nat)) : list Z :=
+  match vs, obs, mis with
+  | v :: vs', (l, _, _, _, _) :: obs', m :: mis' =>
+      (if (v =? 0) && negb (push_same_ok l m) then 10 else v) :: with_push vs' obs' mis'
+  | _, _, _ => vs
+  end.
+
+Definition ctl_case (id : Z) (pl : bool) (fxs : fixes) (ts : list task) (rfail afail : list nat) (obs : list sobs)
+           (mis : list (list nat)) : list Z :=
   let e := {| plus := pl; ro := fails_at rfail; ao := fails_at afail; fx := fxs |} in
   let ag := sagree_from e ctl_init ts obs 0 in
-  let vs := sverdicts pl false false false false false ts obs in
+  let vs := with_push (sverdicts pl false false false false false ts obs) obs mis in
   let '(c, xs) := run_sync e ctl_init ts in
   let t := strace xs in
   [id; b2z (ag =? -1); b2z (forallb (Z.eqb 0) vs); b2z (existsb is_reload t); scover t xs c; ag] ++ vs.
